@@ -240,7 +240,14 @@ def check(cx):
 
     # the number of channels LUSERS reports is the size of the channel map: it is true only if emptied channels are deleted
     r2.instance('channel count: emptied channels are deleted, by every way of leaving (C16 R16.2)')
-    depends(cx, r2, 'C16', ('R16.2',), 'a channel ceases to exist with its last member', only=r'remove_user_from_channel|calls\|remove_user|deletion')
+    depends(cx, r2, 'C16', ('R16.2',), 'a channel ceases to exist with its last member', only=r'^(?!.*\|other-effect)(.*remove_user_from_channel|.*calls\|remove_user|.*deletion)')
+
+    # the number of users LUSERS reports (and the nicks ISON / USERHOST find) is the registry: it is true only if every registered
+    # connection is taken out of it when it ends - the teardown is gated by `authenticated`, which must stay set once registered
+    r2.instance('user count: every registered connection leaves the registry when it ends (C03 R3.3/R3.6, C06 R6.1/R6.2)')
+    depends(cx, r2, 'C03', ('R3.3', 'R3.6'), 'a registered connection stays marked as such, so its disconnect takes it out of the registry',
+            only=r'writes-authenticated|authenticate-reentry')
+    depends(cx, r2, 'C06', ('R6.1', 'R6.2'), 'every way a session ends reaches the teardown')
 
     # ---------------------------------------------------------------- R19.3 ISON / USERHOST
     r3 = cx.rule('R19.3', 'ISON / USERHOST', floor=2, kind='provenance')
